@@ -479,6 +479,15 @@ impl KeyKeeper {
                         continue;
                     }
 
+                    // the key folder may have been removed, or re-created with default permissions
+                    // (write_provision_state), since start-up: make sure it exists and is restricted
+                    // right before a key is written into it
+                    _ = misc_helpers::try_create_folder(&self.key_dir);
+                    if let Err(e) = acl::acl_directory(self.key_dir.clone()) {
+                        logger::write_warning(format!("Folder {} ACLed failed with error {}.",
+                            misc_helpers::path_to_string(&self.key_dir), e));
+                    }
+
                     // persist the new key to local disk
                     let guid = key.guid.to_string();
                     match Self::store_key(&self.key_dir, &key) {
